@@ -20,64 +20,10 @@ use super::*;
 
 pub(crate) const MAXV: usize = 6;
 
-/// `Vec::push` for a Vec whose capacity is known to suffice: `build` pushes into
-/// `Vec::with_capacity(values.len())` at most values.len() - 1 times (huffman.rs:34,43). Every `push` drags
-/// Vec's reallocation path into the formula (CBMC runs out of memory on `build` otherwise); the model has no
-/// such path and FAILS an assertion if the capacity would not suffice. Needs `#![feature(allocator_api)]`
-/// (added to the scratch copy by the runner via `crate_attrs`). Equivalence with the real `push`:
-/// obligations `push_real_contract` / `push_model_contract` (same deterministic postcondition).
-fn push_model<T, A: core::alloc::Allocator>(v: &mut Vec<T, A>, x: T) {
-    let l = v.len();
-    assert!(l < v.capacity(), "push_model: capacity suffices (build reserves values.len())");
-    unsafe {
-        v.as_mut_ptr().add(l).write(x);
-        v.set_len(l + 1);
-    }
-}
-
-/// `<[T]>::fill` as an element-wise loop (the library version is a memset with a symbolic length, which CBMC's
-/// array theory does not survive when 17 of them are chained in `build`). Same result by definition of fill.
-fn fill_model<T: Clone>(s: &mut [T], value: T) {
-    let mut i = 0;
-    while i < s.len() {
-        s[i] = value.clone();
-        i += 1;
-    }
-}
-
-fn check_push(model: bool) {
-    let mut v: Vec<u64> = Vec::with_capacity(4);
-    let init: [u64; 3] = kani::any();
-    let l0: usize = kani::any();
-    kani::assume(l0 <= 3);
-    unsafe {
-        let p = v.as_mut_ptr();
-        p.write(init[0]);
-        p.add(1).write(init[1]);
-        p.add(2).write(init[2]);
-        v.set_len(l0);
-    }
-    let x: u64 = kani::any();
-    if model {
-        push_model(&mut v, x);
-    } else {
-        v.push(x);
-    }
-    assert!(v.len() == l0 + 1 && v[l0] == x, "x is appended");
-    assert!((l0 < 1 || v[0] == init[0]) && (l0 < 2 || v[1] == init[1]) && (l0 < 3 || v[2] == init[2]), "earlier elements kept");
-    kani::cover!(l0 == 3);
-    kani::cover!(l0 == 0);
-}
-
-#[kani::proof]
-fn push_real_contract() {
-    check_push(false);
-}
-
-#[kani::proof]
-fn push_model_contract() {
-    check_push(true);
-}
+// Vec::push / <[u8]>::fill models: `push_model`, `fill_model` live in bit_writer.rs's harness module (the one
+// module of this crate that is compiled into every run, because the crate canary is anchored there); they are
+// referenced here by path in kani::stub attributes. Reason: every `push` drags Vec's reallocation path into
+// the formula and `fill` is a memset of symbolic length; `build` with either does not fit into 12 GB.
 
 // ------------------------------------------------------------------------------------------------
 // T.81 Annex C
@@ -146,16 +92,6 @@ pub(crate) fn spec_jpeg_canonical_code(bits: &[u8; 17], huffval: &[u8], n: usize
     e
 }
 
-/// a table with one known entry (for obligations in scan.rs, which cannot see BuiltHuffmanTable's fields):
-/// symbol `sym` has code (len, bits); every other symbol has no code
-pub(crate) fn table_with(sym: u8, len: u8, bits: u64) -> BuiltHuffmanTable {
-    let mut lengths = vec![0u8; 256];
-    let mut b = vec![0u64; 256];
-    lengths[sym as usize] = len;
-    b[sym as usize] = bits;
-    BuiltHuffmanTable { lengths, bits: b }
-}
-
 /// any HuffmanCode the parser can return that has exactly N values (N concrete: a symbolic Vec length makes
 /// every allocation in `build` an object of symbolic size, which CBMC does not survive)
 fn any_code_in_parser_range<const N: usize>() -> HuffmanCode {
@@ -217,8 +153,8 @@ macro_rules! annex_c_proof {
     ($name:ident, $n:expr) => {
         #[kani::proof]
         #[kani::unwind(18)]
-        #[kani::stub(std::vec::Vec::push, push_model)]
-        #[kani::stub(<[u8]>::fill, fill_model)]
+        #[kani::stub(std::vec::Vec::push, crate::bit_writer::verif_harness::push_model)]
+        #[kani::stub(<[u8]>::fill, crate::bit_writer::verif_harness::fill_model)]
         fn $name() {
             build_matches_annex_c::<$n>();
         }
@@ -232,43 +168,46 @@ annex_c_proof!(build_matches_annex_c_5, 5);
 // ------------------------------------------------------------------------------------------------
 // totality of build / encoded_len / lookup on EVERYTHING the parser can return (see the header comment)
 // ------------------------------------------------------------------------------------------------
-#[kani::proof]
-#[kani::unwind(18)]
-#[kani::stub(std::vec::Vec::push, push_model)]
-fn build_total_on_parser_range() {
-    let hc = any_code_in_parser_range::<2>();
-    let n = hc.values.len();
+fn build_total_on_parser_range<const N: usize>() {
+    let hc = any_code_in_parser_range::<N>();
     let _ = hc.encoded_len();
     let t = hc.build(); // must not panic (C01/C17: hostile reconstruction data produce an error, not a panic)
     let v: u8 = kani::any();
     let _ = t.lookup(v);
     assert!(t.lengths.len() == 256 && t.bits.len() == 256, "[C17,C01] one entry per symbol value");
-    kani::cover!(n == 0);
-    kani::cover!(n == 1);
-    kani::cover!(n >= 2 && hc.counts[0] > 0);
-    kani::cover!(n == MAXV && hc.counts[0] == 0);
+    kani::cover!(hc.counts[0] > 0 || N == 0);
+    kani::cover!(hc.counts[0] == 0);
 }
 
+macro_rules! total_proof {
+    ($name:ident, $n:expr) => {
+        #[kani::proof]
+        #[kani::unwind(18)]
+        #[kani::stub(std::vec::Vec::push, crate::bit_writer::verif_harness::push_model)]
+        #[kani::stub(<[u8]>::fill, crate::bit_writer::verif_harness::fill_model)]
+        fn $name() {
+            build_total_on_parser_range::<$n>();
+        }
+    };
+}
+total_proof!(build_total_0, 0); // no value at all
+total_proof!(build_total_1, 1); // the sentinel only
+total_proof!(build_total_2, 2); // one symbol + sentinel, possibly with a zero-length code
+total_proof!(build_total_3, 3);
+
 // ------------------------------------------------------------------------------------------------
-// the same through the real parser, on three concrete jbrd Huffman bundles (reachability witnesses).
+// the same through the REAL parser, on three concrete jbrd Huffman bundles (reachability witnesses; each input
+// fully concrete -- a symbolic choice between them already makes the parser run symbolically and time out).
 // Bit layout (LSB first): is_ac u(1), id u(2), is_last u(1), 17 x U32(0, 1, 2+u(3), u(8)), then the values.
 //   A = 38 zero bits                     -> counts all 0, no values
 //   B = is_last, counts[1] = 1           -> values = [sentinel] only            (byte 0 = 0x08 | 0x40)
 //   C = is_last, counts[0] = counts[1]=1 -> a zero-length code + the sentinel   (byte 0 = 0x08 | 0x10 | 0x40)
 // ------------------------------------------------------------------------------------------------
-#[kani::proof]
-#[kani::unwind(18)]
-fn parse_build_witnesses() {
-    const A: [u8; 6] = [0x00, 0, 0, 0, 0, 0];
-    const B: [u8; 6] = [0x48, 0, 0, 0, 0, 0];
-    const C: [u8; 6] = [0x58, 0, 0, 0, 0, 0];
-    let which: u8 = kani::any();
-    kani::assume(which < 3);
-    let data = if which == 0 { A } else if which == 1 { B } else { C };
-    let mut bs = Bitstream::new(&data);
+fn parse_then_build(data: &[u8]) {
+    let mut bs = Bitstream::new(data);
     let r = HuffmanCode::parse(&mut bs, ());
     let Ok(hc) = r else {
-        // a parser that rejects these bundles is fine
+        // a parser that rejects the bundle is fine
         return;
     };
     let mut sum = 0usize;
@@ -282,6 +221,19 @@ fn parse_build_witnesses() {
     assert!(!hc.values.is_empty(), "[C01,C17] DHT writer (reconstruct.rs:480) needs at least the sentinel value");
     let _ = hc.encoded_len();
     let _t = hc.build();
-    kani::cover!(which == 0);
-    kani::cover!(which == 2);
 }
+
+macro_rules! witness_proof {
+    ($name:ident, $data:expr) => {
+        #[kani::proof]
+        #[kani::unwind(18)]
+        #[kani::stub(std::vec::Vec::push, crate::bit_writer::verif_harness::push_model)]
+        #[kani::stub(<[u8]>::fill, crate::bit_writer::verif_harness::fill_model)]
+        fn $name() {
+            parse_then_build(&$data);
+        }
+    };
+}
+witness_proof!(parse_build_witness_a, [0x00u8, 0, 0, 0, 0, 0]);
+witness_proof!(parse_build_witness_b, [0x48u8, 0, 0, 0, 0, 0]);
+witness_proof!(parse_build_witness_c, [0x58u8, 0, 0, 0, 0, 0]);
